@@ -55,6 +55,11 @@ CLAIMED = {
   "Trusted: go/ssa, gosym interpreter, z3. Outside the claim: file contents read through the CAS, exploration-order independence of the lazily initialised directory tree with interleaved local changes (the in-memory directory itself is covered by C13), caching_directory_fetcher.go, hardlinking_file_fetcher.go and naive_build_directory.go (real file system).",
   "SMT-based symbolic execution of go/ssa over all masks/attribute sets and bounded Directory messages, native replay",
   "DESIGN.md §4 C17"),
+ "C07": (
+  "Bounded symbolic model checking of the real code: (1) Outcomes.IsFaster / GetMedianExecutionTime with <=2 (quick) / <=3 (thorough) symbolic 64-bit execution times per side and 0..2 failures: strictly between 0 and 1, antisymmetric, 1/2 against itself, median within range -- z3 decides which order types of the symbolic durations are feasible; (2) the feedback-driven selector/learner state machine over every outcome sequence (Succeeded / Failed(timed out?) / Abandoned, depth <=4) with up to 3 size classes, a strategy calculator stub returning symbolic probabilities (SMT floating point) and a symbolic random draw, cached-failure window, history cut: handle released exactly once, dirty iff something was recorded, index within the size classes, 0 <= expected <= timeout <= the action's timeout, one retry on the largest class after a smaller-class failure; fallback analyzer likewise; (3) ActionTimeoutExtractor at 9 boundary values of seconds with symbolic 32-bit nanoseconds; (5) blobAccessMutableProtoStore: every sequence of 2 (quick) / 3 (thorough) requests after a first dirty update, each cache write optionally overlapped by another whole request (issued re-entrantly from the cache stub while the store holds no lock) and optionally failing: a fresh handle never starts from stale statistics, no handle is unregistered while queued, after draining the cache holds the latest update.",
+  "Trusted: go/ssa, gosym interpreter, z3 (incl. its FP theory for the probability comparisons); models: proto.Marshal/Merge/Clone/Equal structural models, real errgroup/context/bb-storage buffer code interpreted. Outside the claim: PageRank power iteration and the range/sum of the probabilities it produces (unbounded float loop; not encodable), part 4 of the design (selector/learner linearity inside the scheduler: see C01-C06 status), finer-grained interleavings inside Get than whole-request overlap, seconds values of timeouts other than the listed boundaries (multiplication/division by 10^9 is not decided by any available solver).",
+  "SMT-based symbolic execution of go/ssa (z3; floating-point theory for probability draws), bounded sequences, native replay",
+  "DESIGN.md §4 C07"),
 }
 
 PENDING_REASON = "check not registered yet (framework under construction; see DESIGN.md §6 build order)"
